@@ -197,11 +197,41 @@ pub fn intermediate(a: &[u64]) -> Vec<u64> {
         .collect()
 }
 
+/// [T, nrep, data(K*T)...] -> 1 if the encoders built by SourceBlockEncoder::new (plan cache),
+/// with_encoding_plan(generate(K)) and with_encoding_plan(a second generate(K)) are equal and produce equal
+/// source + repair packets, else 0
+pub fn plan_variants(a: &[u64]) -> Vec<u64> {
+    let t = a[0];
+    let data = bytes(&a[2..]);
+    let k = data.len() as u64 / t;
+    let c = ObjectTransmissionInformation::new(k * t, t as u16, 1, 1, 1);
+    let e1 = SourceBlockEncoder::new(0, &c, &data);
+    let p2 = SourceBlockEncodingPlan::generate(k as u16);
+    let p3 = SourceBlockEncodingPlan::generate(k as u16);
+    let e2 = SourceBlockEncoder::with_encoding_plan(0, &c, &data, &p2);
+    let e3 = SourceBlockEncoder::with_encoding_plan(0, &c, &data, &p3);
+    let same = e1 == e2
+        && e2 == e3
+        && p2 == p3
+        && e1.repair_packets(0, a[1] as u32) == e2.repair_packets(0, a[1] as u32)
+        && e1.repair_packets(5, a[1] as u32) == e3.repair_packets(5, a[1] as u32)
+        && e1.source_packets() == e3.source_packets();
+    vec![u64::from(same)]
+}
+
 /// [K] -> the operation list of SourceBlockEncodingPlan::generate(K):
 /// per op: 1 dest src | 2 dest scalar | 3 dest src scalar | 4 len order...
 pub fn plan_ops(a: &[u64]) -> Vec<u64> {
     let plan = SourceBlockEncodingPlan::generate(a[0] as u16);
     encode_ops(vh::encoder::plan_operations(&plan))
+}
+
+/// [K, thr] -> the operation list of a direct solve of the encoding system for K symbols with the given
+/// sparse threshold (0 = sparse back-end, huge = dense back-end), on dummy one-byte symbols
+pub fn solve_ops(a: &[u64]) -> Vec<u64> {
+    let symbols = vec![raptorq::Symbol::new(vec![0]); a[0] as usize];
+    let (_, ops) = vh::encoder::gen_intermediate_symbols_raw(&symbols, 1, a[1] as u32);
+    encode_ops(&ops.unwrap())
 }
 
 pub fn encode_ops(ops: &[vh::SymbolOps]) -> Vec<u64> {
